@@ -242,7 +242,7 @@ fn end_to_end(spec: &Spec, env: &mut Env) -> Option<Result<in_toto::models::Meta
         links.push(LinkFile {
             step: name.clone(),
             filed_under: k.clone(),
-            name_field: None,
+            name_field: None, symlink_store: false,
             body: Body::Link { link: LinkSpec { name: name.clone(), materials: m.clone(), products: p.clone(), ..Default::default() }, sigs: vec![SigEntry::good(&k)], tamper: None },
         });
     }
